@@ -26,5 +26,9 @@ def one(d, seeds):
 seeds = sys.argv[1].split(",")
 with ThreadPoolExecutor(4) as ex:
     for name, out in ex.map(lambda d: one(d, seeds), sys.argv[2:]):
-        bad = out if isinstance(out, str) else {k: v for k, v in out.items() if v != "VIOLATION"}
-        print(name, "all reported" if not bad else f"NOT REPORTED: {bad}", flush=True)
+        if isinstance(out, str):
+            print(name, out, flush=True); continue
+        bad = {k: v for k, v in out.items() if v != "VIOLATION"}
+        # a seed at which none of the target checks reports the change is a real miss
+        missed = [s for s in seeds if not any(v == "VIOLATION" for k, v in out.items() if k.endswith("@" + s))]
+        print(name, "all reported" if not bad else (f"NO TARGET REPORTS IT AT SEED {missed}: {out}" if missed else f"reported at every seed (not by: {sorted(bad)})"), flush=True)
